@@ -85,11 +85,12 @@ Theorem C15_exclude_never_touched : forall frepr p fuel o deep sdir ddir subdir,
 Proof. exact exclude_never_touched_current. Qed.
 Print Assumptions C15_exclude_never_touched.
 
-(* cloned jobs: a job that is created by the call contains nothing — file or directory, at any depth — whose name
-   matches a user pattern, except the state point and the document, which make up the job; a dry run creates
-   nothing at all *)
+(* cloned jobs: a job that is created by the call contains nothing — file or directory, at any depth — that the
+   patterns exclude (clone_excl_at): below the job directory whatever a user pattern matches, directly in it whatever a
+   user pattern matches except the job's own state point and document (618e7cc: a nested file that merely carries one of
+   the two names is excluded like any other) *)
 Theorem C15_exclude_never_touched_clone : forall frepr o id sd ws p,
-  o_dry_run o = false -> alookup id ws = None -> p <> [] -> clone_excl o (last p []) = true ->
+  o_dry_run o = false -> alookup id ws = None -> p <> [] -> clone_excl_at o p = true ->
   lookup_path (id :: p) (Dir (fst (clone_or_sync frepr cfg_current o (id, Dir sd) ws))) = None.
 Proof. exact clone_excluded_absent. Qed.
 Print Assumptions C15_exclude_never_touched_clone.
